@@ -2213,6 +2213,16 @@ def run(tier):
               'SMT-LIB fixes for them (or "unknown"), and only "unknown" '
               'when an operand has no known width',
               'a sort or width that is neither unknown nor right: replacements "of the same sort" are ill-sorted')
+    from .. import extractbounds
+    chk.guard(extractbounds.report, chk, prog, 'C16.R18',
+              'an extract operator a mutator puts onto an operand T (re-used '
+              'from the matched application or newly built) has indices '
+              'L <= H < width(T): the guard facts of the construction site '
+              'entail both bounds (difference-bound argument over the '
+              'linear guards; widths from get_bv_width, indices from '
+              'get_indices)',
+              'the replacement is ill-sorted, or the width inferred for it '
+              'differs from the width of the term it replaces')
     extra = None
     if tier == 'thorough':
         from .. import selftest
